@@ -2,13 +2,32 @@ import SafeNet.Proofs.Quote
 import SafeNet.Model.QuoteHist
 import SafeNet.Model.QuoteDuty
 import SafeNet.Model.QuoteFetch
+import SafeNet.Model.QuoteFlow
 /-!
 # C13 — payment quotes are bound to their signer and to every signed field
 
 Statements over `SafeNet.Model.Quote` (model of `ant-evm/src/data_payments.rs`), instantiated with the
 part order, comparators and constants that `rs2lean` regenerates from the Rust source (`SafeNet.Gen.Quote`).
-The signature scheme `S` is an *ideal scheme passed as a parameter* (`SigScheme`), identities `I` are abstract;
-every theorem holds for all of them.  The clock is the parameter `now`.
+The signature scheme `S` is a *parameter* (`SigScheme`), ideal for keys of prime order (`S.strong`), identities `I` are
+abstract; every theorem holds for all of them.  The clock is the parameter `now`.
+
+Reading guide for the last clause of the property ("a later quote from the same node that reports less uptime or fewer
+received payments than an earlier one is flagged as inconsistent"):
+* `historical_flags` … `deliverAll_other_peers`, `duty_forwards_iff`, `duty_none_iff`, `around_same_time_iff` describe
+  **the checker, once reached** (`quotes_verification` → `LocalSwarmCmd::QuoteVerification` → `verify_peer_quote` →
+  `historical_verify`), driven on the real code by injecting the command / calling the hook (`quotehist`, `quoteduty`).
+* No production code reaches it: nothing constructs `NetworkEvent::QuoteVerification` (regenerated fact
+  `Gen.QuoteFetch.quoteVerificationDispatched = false`).  `LaterLesserQuoteFlagged` is the clause over the composed
+  system client fetch → dispatch → checker; it is FALSE of today's code (`flagging_unreachable_witness`,
+  `later_lesser_quote_not_flagged`; known finding K-q-flagging-unreachable) and holds exactly when the dispatch exists
+  (`later_lesser_flagged_iff_dispatched`).
+* Even when reached, the checker compares with the ONE remembered (newest) quote only: `LaterLesserThanAnyEarlierFlagged`
+  is refuted by `lesser_than_older_unflagged_witness` (known finding K-n-only-newest-remembered);
+  `out_of_sequence_with_newest_flagged` / `later_lesser_flagged_partial` are the `_partial` form.
+
+Known finding K-w (weak keys): `altered_field_fails` needs `StrongKey`; `AlteredFieldFailsAnyKey` is refuted by
+`weak_key_verifies_every_field_witness`.  Observation (non-canonical key encodings): `altered_key_fails` is up to
+*decoding*; `OneSignedQuoteOneHashInput` is refuted by `noncanonical_key_other_hash_witness`.
 
 Known finding K-i (recorded in `known_findings.jsonl`): the property text says the signature covers the
 quote's *timestamp*; the code signs `as_secs()` only.  `TimestampFullyBound` is the full statement,
@@ -50,42 +69,60 @@ variable {Key Peer : Type} [DecidableEq Peer] (S : SigScheme Key) (I : Ids Key P
 
 /-! ## verification -/
 
-/-- **verify_iff.** A quote verifies for the claimed peer `p` iff its key field decodes to a key `k`,
-`k` hashes to `p`, and the signature is `k`'s signature over exactly the quote's own signing bytes. -/
-theorem verify_iff (q : Quote) (p : Peer) :
+/-- what `check_is_signed_by_claimed_peer` computes, for every key: the key field decodes to a key that hashes to the
+claimed peer and the signature verifies under it over the quote's own signing bytes -/
+theorem verify_iff_any_key (q : Quote) (p : Peer) :
     checkSigned S I q p = true ↔
-      ∃ k, I.decodeKey q.pubKey = some k ∧ I.peerOf k = p ∧ q.signature = S.sign k q.sigBytes := by
+      ∃ k, I.decodeKey q.pubKey = some k ∧ I.peerOf k = p ∧ S.verify k q.sigBytes q.signature = true := by
   unfold checkSigned
   cases hk : I.decodeKey q.pubKey with
   | none => simp
   | some k =>
     by_cases hp : I.peerOf k = p
-    · simp [hp, S.ideal]
+    · simp [hp]
     · simp [hp]
 
+/-- the key the quote carries (if it decodes) is of prime order — not one of the small-order points that
+libp2p-identity also accepts as ed25519 public keys (K-w) -/
+def StrongKey (q : Quote) : Prop := ∀ k, I.decodeKey q.pubKey = some k → S.strong k = true
+
+/-- **verify_iff.** A quote carrying a prime-order key verifies for the claimed peer `p` iff its key field decodes to a
+key `k`, `k` hashes to `p`, and the signature is `k`'s signature over exactly the quote's own signing bytes. -/
+theorem verify_iff (q : Quote) (p : Peer) (hk : StrongKey S I q) :
+    checkSigned S I q p = true ↔
+      ∃ k, I.decodeKey q.pubKey = some k ∧ I.peerOf k = p ∧ q.signature = S.sign k q.sigBytes := by
+  rw [verify_iff_any_key]
+  constructor
+  · rintro ⟨k, h1, h2, h3⟩
+    exact ⟨k, h1, h2, (S.ideal k _ _ (hk k h1)).mp h3⟩
+  · rintro ⟨k, h1, h2, h3⟩
+    exact ⟨k, h1, h2, (S.ideal k _ _ (hk k h1)).mpr h3⟩
+
 /-- **Altering a signed field.** If `q` verifies (for anyone), then a quote carrying the same
-signature (under whatever key field) but a different content address, whole-second timestamp, metrics or rewards address verifies for no one. -/
+signature (under whatever prime-order key) but a different content address, whole-second timestamp, metrics or rewards
+address verifies for no one. -/
 theorem altered_field_fails (q q' : Quote) (p p' : Peer) (hq : q.ok) (hq' : q'.ok)
+    (hk : StrongKey S I q) (hk' : StrongKey S I q')
     (hv : checkSigned S I q p = true) (hs : q'.signature = q.signature)
     (h : q.content ≠ q'.content ∨ q.secs ≠ q'.secs ∨ q.metrics ≠ q'.metrics ∨ q.rewards ≠ q'.rewards) :
     checkSigned S I q' p' = false := by
   apply Bool.eq_false_iff.mpr
   intro hv'
-  obtain ⟨k, hk1, _, hsig⟩ := (verify_iff S I q p).mp hv
-  obtain ⟨k', hk1', _, hsig'⟩ := (verify_iff S I q' p').mp hv'
+  obtain ⟨k, hk1, _, hsig⟩ := (verify_iff S I q p hk).mp hv
+  obtain ⟨k', hk1', _, hsig'⟩ := (verify_iff S I q' p' hk').mp hv'
   rw [hs, hsig] at hsig'
   exact bytes_differ q q' hq hq' h (S.inj _ _ _ _ hsig').2
 
-/-- **Altering the key.** Same fields and signature under a key field that decodes to a different key
-(or does not decode) verifies for no one. -/
-theorem altered_key_fails (q q' : Quote) (p p' : Peer)
+/-- **Altering the key.** Same fields and signature under a key field that decodes to a different (prime-order) key
+(or does not decode) verifies for no one. "Different" is up to DECODING: see `noncanonical_key_same_verdict`. -/
+theorem altered_key_fails (q q' : Quote) (p p' : Peer) (hk : StrongKey S I q) (hk' : StrongKey S I q')
     (hv : checkSigned S I q p = true) (hb : q'.sigBytes = q.sigBytes) (hs : q'.signature = q.signature)
     (h : I.decodeKey q'.pubKey ≠ I.decodeKey q.pubKey) :
     checkSigned S I q' p' = false := by
   apply Bool.eq_false_iff.mpr
   intro hv'
-  obtain ⟨k, hk1, _, hsig⟩ := (verify_iff S I q p).mp hv
-  obtain ⟨k', hk1', _, hsig'⟩ := (verify_iff S I q' p').mp hv'
+  obtain ⟨k, hk1, _, hsig⟩ := (verify_iff S I q p hk).mp hv
+  obtain ⟨k', hk1', _, hsig'⟩ := (verify_iff S I q' p' hk').mp hv'
   rw [hs, hsig, hb] at hsig'
   have := (S.inj _ _ _ _ hsig').1
   rw [hk1, hk1', this] at h
@@ -96,8 +133,8 @@ theorem claimed_identity_unique (q : Quote) (p p' : Peer)
     (hv : checkSigned S I q p = true) (h : p' ≠ p) : checkSigned S I q p' = false := by
   apply Bool.eq_false_iff.mpr
   intro hv'
-  obtain ⟨k, hk1, hp, _⟩ := (verify_iff S I q p).mp hv
-  obtain ⟨k', hk1', hp', _⟩ := (verify_iff S I q p').mp hv'
+  obtain ⟨k, hk1, hp, _⟩ := (verify_iff_any_key S I q p).mp hv
+  obtain ⟨k', hk1', hp', _⟩ := (verify_iff_any_key S I q p').mp hv'
   rw [hk1] at hk1'
   cases hk1'
   exact h (hp'.symm.trans hp)
@@ -443,22 +480,22 @@ variable {Key Peer : Type} [DecidableEq Peer] (S : SigScheme Key) (I : Ids Key P
 content address, timestamp (whole seconds), metrics and rewards address: it verifies for the node's own peer id, and
 for no other. -/
 theorem created_quote_verifies (selfKey : Key) (keyBytes content : List Nat) (secs nanos : Nat) (m : Metrics)
-    (rewards : List Nat) (hk : I.decodeKey keyBytes = some selfKey) :
+    (rewards : List Nat) (hk : I.decodeKey keyBytes = some selfKey) (hs : S.strong selfKey = true) :
     checkSigned S I (createQuote S selfKey keyBytes content secs nanos m rewards) (I.peerOf selfKey) = true ∧
     ∀ p, p ≠ I.peerOf selfKey → checkSigned S I (createQuote S selfKey keyBytes content secs nanos m rewards) p = false := by
   have h1 : checkSigned S I (createQuote S selfKey keyBytes content secs nanos m rewards) (I.peerOf selfKey) = true := by
-    rw [verify_iff]; exact ⟨selfKey, hk, rfl, rfl⟩
+    rw [verify_iff_any_key]; exact ⟨selfKey, hk, rfl, (S.ideal _ _ _ hs).mpr rfl⟩
   exact ⟨h1, fun p hp => claimed_identity_unique S I _ _ p h1 hp⟩
 
 /-- a freshly created quote passes the node's own `verify_quote_for_storecost` for the address it was created for -/
 theorem created_quote_passes_storecost (selfKey : Key) (keyBytes content : List Nat) (secs nanos : Nat) (m : Metrics)
-    (rewards : List Nat) (now : Nat)
+    (rewards : List Nat) (now : Nat) (hs : S.strong selfKey = true)
     (hfresh : hasExpired (createQuote S selfKey keyBytes content secs nanos m rewards).ts now = false) :
     verifyForStorecost S selfKey (createQuote S selfKey keyBytes content secs nanos m rewards) content now = true := by
   unfold verifyForStorecost
   rw [if_neg (fun h => h rfl), hfresh]
   simp only [Bool.false_eq_true, ↓reduceIte]
-  exact (S.ideal _ _ _).mpr rfl
+  exact (S.ideal _ _ _ hs).mpr rfl
 
 /-- **duty_forwards_iff.** What `quotes_verification` hands on for historical verification is exactly: the listed quotes
 of other peers, for the same content as the node's own quote, dated strictly less than 10 s from it, that verify for the
@@ -479,7 +516,8 @@ theorem duty_forwards_iff (self : Peer) (selfKey : Key) (now : Nat) (quotes fwd 
 
 /-- **duty_none_iff.** Nothing at all is handed on unless the node's own quote is listed, is for its own content
 address, has not expired and carries the node's own signature. -/
-theorem duty_none_iff (self : Peer) (selfKey : Key) (now : Nat) (quotes : List (Entry Peer)) :
+theorem duty_none_iff (self : Peer) (selfKey : Key) (now : Nat) (quotes : List (Entry Peer))
+    (hs : S.strong selfKey = true) :
     quotesVerification S I self selfKey now quotes = none ↔
       (∀ me, quotes.find? (fun e => decide (e.claimed = self)) = some me →
         hasExpired me.quote.ts now = true ∨ me.quote.signature ≠ S.sign selfKey me.quote.sigBytes) := by
@@ -494,11 +532,11 @@ theorem duty_none_iff (self : Peer) (selfKey : Key) (now : Nat) (quotes : List (
     · simp [he]
     · simp only [he, Bool.false_eq_true, ↓reduceIte, false_or]
       by_cases hv : S.verify selfKey me.quote.sigBytes me.quote.signature = true
-      · have := (S.ideal _ _ _).mp hv
+      · have := (S.ideal _ _ _ hs).mp hv
         rw [if_pos hv]
         simp only [reduceCtorEq, false_iff]
         exact fun h => h this
-      · have : me.quote.signature ≠ S.sign selfKey me.quote.sigBytes := fun e => hv ((S.ideal _ _ _).mpr e)
+      · have : me.quote.signature ≠ S.sign selfKey me.quote.sigBytes := fun e => hv ((S.ideal _ _ _ hs).mpr e)
         rw [if_neg hv]
         simp only [true_iff]
         exact this
@@ -550,7 +588,8 @@ theorem timestamp_not_fully_bound : ¬ TimestampFullyBound := by
 def toyScheme : SigScheme Nat where
   sign k m := k :: m
   verify k m s := s == k :: m
-  ideal := by intro k m s; simp
+  strong _ := true
+  ideal := by intro k m s _; simp
   inj := by intro k m k' m' h; simpa using h
 
 def toyIds : Ids Nat Nat where
@@ -558,19 +597,21 @@ def toyIds : Ids Nat Nat where
   peerOf k := k
   decodePeer | [p] => some p | _ => none
 
+theorem toy_strong (q : Quote) : StrongKey toyScheme toyIds q := fun _ _ => rfl
+
 def goodQuote : Quote := { wq 5 with pubKey := [3], signature := toyScheme.sign 3 (wq 5).sigBytes }
 
 example : checkSigned toyScheme toyIds goodQuote 3 = true := by
-  rw [verify_iff]; exact ⟨3, rfl, rfl, rfl⟩
+  rw [verify_iff _ _ _ _ (toy_strong _)]; exact ⟨3, rfl, rfl, rfl⟩
 example : checkSigned toyScheme toyIds goodQuote 4 = false :=
-  claimed_identity_unique _ _ _ 3 4 (by rw [verify_iff]; exact ⟨3, rfl, rfl, rfl⟩) (by decide)
+  claimed_identity_unique _ _ _ 3 4 (by rw [verify_iff _ _ _ _ (toy_strong _)]; exact ⟨3, rfl, rfl, rfl⟩) (by decide)
 example : verifyFor toyScheme toyIds [([3], goodQuote)] 3 = true := by
   rw [proof_verify_for]
   refine ⟨by simp [payees, toyIds], ?_⟩
   intro e he
   simp only [List.mem_singleton] at he
   subst he
-  exact ⟨3, rfl, by rw [verify_iff]; exact ⟨3, rfl, rfl, rfl⟩⟩
+  exact ⟨3, rfl, by rw [verify_iff _ _ _ _ (toy_strong _)]; exact ⟨3, rfl, rfl, rfl⟩⟩
 example : hasExpired 0 (3600 * nsPerSec + 999999999) = false := by decide
 example : hasExpired 0 (3601 * nsPerSec) = true := by decide
 example : hasExpired 1 0 = true := by decide
@@ -679,10 +720,283 @@ theorem quote_hash_binds (q q' : Quote) (hq : q.ok) (hq' : q'.ok) (hk : q.pubKey
   obtain ⟨e5, e6⟩ := List.append_inj h4 hk
   exact ⟨e1, e3, (Metrics.toVal_inj _ _ d1.1).symm, e4, e5, e6⟩
 
+/-! ## known finding K-w: small-order ed25519 keys (the scheme is ideal for prime-order keys only)
+
+libp2p-identity 0.2.10 decodes the eight small-order points of edwards25519 as ed25519 public keys and verifies with
+ed25519-dalek's non-strict `verify`; under the neutral element the pair `(R, S) = (neutral, 0)` satisfies the verification
+equation for every message.  Component `quote`, tokens `W0` (that key / that signature) and `Q0` (its peer id):
+`verify Q0 W0 W0 F F'` is `true` on the real code for every `F'`.  Nobody owns that identity (everyone can sign for it),
+so no honest node's quote is affected; but "altering any one of these … makes verification fail" fails literally. -/
+
+/-- `altered_field_fails` without the `StrongKey` hypotheses -/
+def AlteredFieldFailsAnyKey : Prop :=
+  ∀ {Key Peer : Type} [DecidableEq Peer] (S : SigScheme Key) (I : Ids Key Peer) (q q' : Quote) (p p' : Peer),
+    q.ok → q'.ok → checkSigned S I q p = true → q'.signature = q.signature →
+    (q.content ≠ q'.content ∨ q.secs ≠ q'.secs ∨ q.metrics ≠ q'.metrics ∨ q.rewards ≠ q'.rewards) →
+    checkSigned S I q' p' = false
+
+/-- a scheme with one weak key `0`: ideal for every other key, and under `0` the signature `[0]` verifies for every message -/
+def weakScheme : SigScheme Nat where
+  sign k m := k :: m
+  verify k m s := if k = 0 then s == [0] else s == k :: m
+  strong k := decide (k ≠ 0)
+  ideal := by intro k m s hk; simp at hk; simp [hk]
+  inj := by intro k m k' m' h; simpa using h
+
+/-- **Witness (K-w).** Under the weak key one signature verifies for its peer whatever the content address, timestamp,
+metrics and rewards address are. -/
+theorem weak_key_verifies_every_field_witness (q : Quote) (h1 : q.pubKey = [0]) (h2 : q.signature = [0]) :
+    checkSigned weakScheme toyIds q 0 = true := by
+  simp [checkSigned, toyIds, weakScheme, h1, h2]
+
+/-- one signature under the weak key, any whole-second timestamp -/
+def weakQ (secs : Nat) : Quote := { wq 5 with secs := secs, pubKey := [0], signature := [0] }
+
+theorem weakQ_ok (n : Nat) (h : n < 2 ^ 64) : (weakQ n).ok :=
+  ⟨by simp [weakQ, wq], by simp [weakQ, wq], by simpa [weakQ, wq] using h, by simp [weakQ, wq, Metrics.ok]⟩
+
+theorem altered_field_fails_needs_strong_key : ¬ AlteredFieldFailsAnyKey := by
+  intro h
+  have a := weak_key_verifies_every_field_witness (weakQ 7) rfl rfl
+  have b := weak_key_verifies_every_field_witness (weakQ 8) rfl rfl
+  have := h weakScheme toyIds (weakQ 7) (weakQ 8) 0 0 (weakQ_ok 7 (by decide)) (weakQ_ok 8 (by decide)) a rfl
+    (Or.inr (Or.inl (by simp [weakQ])))
+  rw [b] at this
+  cases this
+
+/-! ## observation: non-canonical encodings of the key (one signed quote, many hashes)
+
+`PublicKey::try_decode_protobuf` skips unknown fields: the canonical 36 bytes followed by `18 00` decode to the same key.
+The quote still verifies for the same peer (`noncanonical_key_same_verdict`) but `PaymentQuote::hash` covers the raw key
+bytes, so it changes (`noncanonical_key_other_hash_witness`; component `quote`, op `kpair K<i> N<i> S<i> F` gives
+`true true false` on the real code): whoever relays a quote can mint further hashes for it without the signer. -/
+
+section
+variable {Key Peer : Type} [DecidableEq Peer] (S : SigScheme Key) (I : Ids Key Peer)
+
+/-- the verdict depends on the key field only through what it decodes to -/
+theorem noncanonical_key_same_verdict (q q' : Quote) (p : Peer) (hb : q'.sigBytes = q.sigBytes)
+    (hs : q'.signature = q.signature) (hd : I.decodeKey q'.pubKey = I.decodeKey q.pubKey) :
+    checkSigned S I q' p = checkSigned S I q p := by
+  unfold checkSigned
+  rw [hd, hb, hs]
+end
+
+/-- "one signed quote, one hash": quotes that verify for the same peer with the same signed bytes and signature have the
+same hash input -/
+def OneSignedQuoteOneHashInput : Prop :=
+  ∀ {Key Peer : Type} [DecidableEq Peer] (S : SigScheme Key) (I : Ids Key Peer) (q q' : Quote) (p : Peer),
+    checkSigned S I q p = true → checkSigned S I q' p = true → q'.sigBytes = q.sigBytes → q'.signature = q.signature →
+    q'.hashInput = q.hashInput
+
+/-- key decoding that ignores a trailing unknown field, as `try_decode_protobuf` does -/
+def laxIds : Ids Nat Nat where
+  decodeKey | [k] => some k | [k, 0] => some k | _ => none
+  peerOf k := k
+  decodePeer | [p] => some p | _ => none
+
+theorem noncanonical_key_other_hash_witness :
+    checkSigned toyScheme laxIds goodQuote 3 = true ∧
+    checkSigned toyScheme laxIds { goodQuote with pubKey := [3, 0] } 3 = true ∧
+    ({ goodQuote with pubKey := [3, 0] } : Quote).hashInput ≠ goodQuote.hashInput := by
+  have e1 : goodQuote.sigBytes = (wq 5).sigBytes := rfl
+  have e2 : ({ goodQuote with pubKey := [3, 0] } : Quote).sigBytes = (wq 5).sigBytes := rfl
+  refine ⟨?_, ?_, ?_⟩
+  · exact (verify_iff_any_key _ _ _ _).mpr ⟨3, rfl, rfl, by rw [e1]; simp [toyScheme, goodQuote]⟩
+  · exact (verify_iff_any_key _ _ _ _).mpr ⟨3, rfl, rfl, by rw [e2]; simp [toyScheme, goodQuote]⟩
+  · rw [hashInput_eq, hashInput_eq]
+    intro h
+    have h2 : ({ goodQuote with pubKey := [3, 0] } : Quote).sigBytes = goodQuote.sigBytes := rfl
+    rw [h2] at h
+    have := List.append_cancel_left h
+    have := congrArg List.length this
+    simp [goodQuote] at this
+
+theorem one_signed_quote_many_hash_inputs : ¬ OneSignedQuoteOneHashInput := by
+  intro h
+  obtain ⟨a, b, c⟩ := noncanonical_key_other_hash_witness
+  exact c (h toyScheme laxIds goodQuote _ 3 a b rfl rfl)
+
+/-! ## known finding K-n: only the newest quote is remembered
+
+`quotes_history : BTreeMap<PeerId, PaymentQuote>` keeps ONE quote per peer (the newest that passed).  The text compares a
+later quote with "an earlier one" — any earlier one. -/
+
+section NewestOnly
+open SafeNet.QuoteHist
+
+/-- the clause as written, over everything one observer was handed for one peer: if some quote handed over is later-dated
+than another one handed over and reports less uptime or fewer payments, the peer is flagged at the end -/
+def LaterLesserThanAnyEarlierFlagged : Prop :=
+  ∀ (qs : List (Hist × Nat)) (a b : Hist), a ∈ qs.map (·.1) → b ∈ qs.map (·.1) → a.ts < b.ts →
+    (b.liveTime < a.liveTime ∨ b.paid < a.paid) → (run .empty qs).flagged = true
+
+/-- **Witness (K-n).** q1 = (t100, live 10, paid 10), q2 = (t300, 12, 12), q3 = (t200, 11, 9): q3 is later than q1 and
+reports fewer payments, but it is compared with the remembered q2 only, is consistent with it, and is dropped. -/
+theorem lesser_than_older_unflagged_witness :
+    (run .empty [(⟨100, 10, 10⟩, 1000), (⟨300, 12, 12⟩, 1000), (⟨200, 11, 9⟩, 1000)]).flagged = false ∧
+    (run .empty [(⟨100, 10, 10⟩, 1000), (⟨300, 12, 12⟩, 1000), (⟨200, 11, 9⟩, 1000)]).history = some ⟨300, 12, 12⟩ := by
+  decide
+
+theorem later_lesser_than_any_earlier_not_flagged : ¬ LaterLesserThanAnyEarlierFlagged := by
+  intro h
+  have := h [(⟨100, 10, 10⟩, 1000), (⟨300, 12, 12⟩, 1000), (⟨200, 11, 9⟩, 1000)] ⟨100, 10, 10⟩ ⟨200, 11, 9⟩
+    (by simp) (by simp) (by decide) (Or.inr (by decide))
+  rw [lesser_than_older_unflagged_witness.1] at this
+  cases this
+
+/-- **`_partial` (named hypothesis: the earlier quote is the NEWEST one handed over before).** The clause in the text's
+own words: `earlier` was handed over before `later`, nothing handed over before `later` is dated after `earlier`
+(`hnewest`, with `huniq`: no second quote bearing the same timestamp), `later` is dated after it and reports less ⇒ flagged. -/
+theorem later_lesser_flagged_partial (before after : List (Hist × Nat)) (earlier later : Hist) (now : Nat)
+    (hmem : earlier ∈ before.map (·.1))
+    (hnewest : ∀ x ∈ before.map (·.1), x.ts ≤ earlier.ts)
+    (huniq : ∀ x ∈ before.map (·.1), x.ts = earlier.ts → x = earlier)
+    (hlater : earlier.ts < later.ts) (hless : later.liveTime < earlier.liveTime ∨ later.paid < earlier.paid) :
+    (run .empty (before ++ (later, now) :: after)).flagged = true :=
+  out_of_sequence_with_newest_flagged before after later earlier now hmem hnewest huniq (by omega)
+    (Or.inl ⟨hlater, hless⟩)
+
+end NewestOnly
+
+/-! ## known finding K-q: the checker is unreachable (composed system client fetch → dispatch → checker) -/
+
+section Flow
+open SafeNet.QuoteHist SafeNet.QuoteFlow
+
+/-- **The clause over the running system.** A client fetches quotes twice; the node `p` answers `a` the first time and
+the later-dated `b`, reporting less uptime or fewer received payments, the second time.  An observing close node (whose
+duty filter passes both) ends up with a `BadQuoting` issue recorded for `p`. -/
+def LaterLesserQuoteFlagged : Prop :=
+  ∀ (p : Nat) (a b : Hist) (now0 now : Nat), a.ts < b.ts → (b.liveTime < a.liveTime ∨ b.paid < a.paid) →
+    ((observe [] [⟨now0, [(p, a)]⟩, ⟨now, [(p, b)]⟩]).get p).flagged = true
+
+theorem get_set (st : State) (p : Nat) (s : PeerState) : (st.set p s).get p = s := by
+  simp [State.get, State.set]
+
+/-- without the dispatch the observer's state never changes, whatever clients collect -/
+theorem undispatched_observes_nothing (st : State) (rounds : List Round) : observeWith false st rounds = st := by
+  induction rounds generalizing st with
+  | nil => rfl
+  | cons r rest ih => simp only [observeWith, relayed, Bool.false_eq_true, ↓reduceIte, deliverAll]; exact ih st
+
+/-- the repaired shape, full strength: with the dispatch in place the clause holds (in either arrival order) -/
+theorem later_lesser_flagged_once_dispatched (p : Nat) (a b : Hist) (now0 now : Nat) (hlater : a.ts < b.ts)
+    (h : b.liveTime < a.liveTime ∨ b.paid < a.paid) :
+    ((observeWith true [] [⟨now0, [(p, a)]⟩, ⟨now, [(p, b)]⟩]).get p).flagged = true ∧
+    ((observeWith true [] [⟨now0, [(p, b)]⟩, ⟨now, [(p, a)]⟩]).get p).flagged = true := by
+  have key := later_lesser_flagged_any_order a b now0 now hlater h
+  simp only [observeWith, relayed, ↓reduceIte, deliverAll, get_set]
+  exact key
+
+/-- **Witness (K-q).** The node quotes (t100, live 10, paid 10) and later (t1100, live 10, paid 3); both rounds are
+collected by a client; the observer's record of the node is still empty. -/
+theorem flagging_unreachable_witness :
+    (observe [] [⟨2000, [(1, ⟨100, 10, 10⟩)]⟩, ⟨3000, [(1, ⟨1100, 10, 3⟩)]⟩]).get 1 = .empty := by
+  decide
+
+/-- the clause holds exactly when some production code dispatches the event -/
+theorem later_lesser_flagged_iff_dispatched :
+    LaterLesserQuoteFlagged ↔ Gen.QuoteFetch.quoteVerificationDispatched = true := by
+  unfold LaterLesserQuoteFlagged observe
+  cases Gen.QuoteFetch.quoteVerificationDispatched with
+  | true =>
+    simp only [iff_true]
+    intro p a b now0 now hl h
+    exact (later_lesser_flagged_once_dispatched p a b now0 now hl h).1
+  | false =>
+    simp only [Bool.false_eq_true, iff_false]
+    intro h
+    have := h 1 ⟨100, 10, 10⟩ ⟨1100, 10, 3⟩ 2000 3000 (by decide) (Or.inr (by decide))
+    rw [undispatched_observes_nothing] at this
+    cases this
+
+theorem later_lesser_quote_not_flagged : ¬ LaterLesserQuoteFlagged := by
+  rw [later_lesser_flagged_iff_dispatched]
+  decide
+
+/-- what the `quotehist` / `quoteduty` components drive is the chain production code would run from the event on -/
+theorem checker_chain_intact : Gen.QuoteFetch.checkerChainIntact = true := rfl
+
+end Flow
+
+/-! ## the arm a client's fetch reaches: `Query::GetStoreQuote` in `Node::handle_query` (component `quoteduty`, op `getquote`) -/
+
+section GetStoreQuote
+open SafeNet.QuoteDuty
+variable {Key Peer : Type} [DecidableEq Peer] (S : SigScheme Key) (I : Ids Key Peer)
+
+/-- **get_store_quote_reply.** Whatever address is asked about: if the node answers with a quote, the quote carries the
+node's key and signature over the address's name (the all-zero name when the address has none: a peer id or a raw record
+key), the metrics its store reported and the node's rewards address; it verifies for the node's own peer id and for no
+other. The node answers `RecordExists` exactly when its store says the record is held, and fails only without metrics. -/
+theorem get_store_quote_reply (selfKey : Key) (keyBytes : List Nat) (name : Option (List Nat)) (ans : MetricsAnswer)
+    (secs nanos : Nat) (rewards : List Nat) (hk : I.decodeKey keyBytes = some selfKey) (hs : S.strong selfKey = true) :
+    match getStoreQuote S selfKey keyBytes name ans secs nanos rewards with
+    | .quote q => (∃ m, ans = .metrics m false ∧ q.metrics = m) ∧ q.content = name.getD zeroName ∧ q.rewards = rewards ∧
+        q.secs = secs ∧ checkSigned S I q (I.peerOf selfKey) = true ∧ ∀ p, p ≠ I.peerOf selfKey → checkSigned S I q p = false
+    | .recordExists => ∃ m, ans = .metrics m true
+    | .failed => ans = .dropped := by
+  cases ans with
+  | dropped => simp [getStoreQuote]
+  | metrics m st =>
+    cases st with
+    | true => simp [getStoreQuote]
+    | false =>
+      simp only [getStoreQuote]
+      obtain ⟨h1, h2⟩ := created_quote_verifies S I selfKey keyBytes (name.getD zeroName) secs nanos m rewards hk hs
+      exact ⟨⟨m, rfl, rfl⟩, rfl, rfl, rfl, h1, h2⟩
+
+/-- observation: asked about a peer id or a raw record key, the node signs a quote for the all-zero name -/
+theorem quote_for_nameless_address_is_for_zero (selfKey : Key) (keyBytes : List Nat) (m : Metrics) (secs nanos : Nat)
+    (rewards : List Nat) :
+    ∃ q, getStoreQuote S selfKey keyBytes none (.metrics m false) secs nanos rewards = .quote q ∧ q.content = zeroName :=
+  ⟨_, rfl, rfl⟩
+
+end GetStoreQuote
+
+/-! ## consequences of K-i for the checker, the expiry boundary, the two clock readings (observations) -/
+
+/-- The unsigned sub-second part decides `is_newer_than`, hence which quote is "old" in `historical_verify`: two honest
+quotes of one node from the same second (paid 5, then paid 6) are consistent; with the sub-second parts swapped — which
+neither signature covers (`subsecond_not_bound_witness`) — the same two signed quotes are "inconsistent". -/
+theorem subsecond_reorder_flips_verdict_witness :
+    historicalVerify ⟨1700000000 * nsPerSec + 100, 10, 5⟩ ⟨1700000000 * nsPerSec + 200, 10, 6⟩ (1700000100 * nsPerSec) = true ∧
+    historicalVerify ⟨1700000000 * nsPerSec + 200, 10, 5⟩ ⟨1700000000 * nsPerSec + 100, 10, 6⟩ (1700000100 * nsPerSec) = false := by
+  decide
+
+/-- "older than the validity window" in whole seconds: a quote aged 3600.999999999 s is not expired yet -/
+theorem expiry_truncates_to_whole_seconds_witness :
+    hasExpired 0 (3600 * nsPerSec + 999999999) = false ∧ hasExpired 0 (3601 * nsPerSec) = true := by decide
+
+theorem historical_verify2_same (a b : Hist) (now : Nat) : historicalVerify2 a b now now = historicalVerify a b now := rfl
+
+/-- the out-of-sequence clause does not depend on either clock reading -/
+theorem historical_flags2 (a b : Hist) (now1 now2 : Nat) (hlater : a.ts < b.ts)
+    (h : b.liveTime < a.liveTime ∨ b.paid < a.paid) :
+    historicalVerify2 a b now1 now2 = false ∧ historicalVerify2 b a now1 now2 = false := by
+  have n1 : isNewerThan a.ts b.ts = false := by simp [isNewerThan, newerCmp]; omega
+  have n2 : isNewerThan b.ts a.ts = true := by simp [isNewerThan, newerCmp]; omega
+  unfold historicalVerify2
+  simp only [n1, n2, Bool.false_eq_true, ↓reduceIte, liveOutOfSeq, paidOutOfSeq]
+  rcases h with h | h
+  · simp [h]
+  · by_cases h' : b.liveTime < a.liveTime <;> simp [h, h']
+
+/-- `historical_verify` reads the clock twice; with the second reading less than a second after the first, the
+whole-second difference of the two ages it compares with the uptime claim is the single-reading value or one less -/
+theorem two_clock_reads_off_by_at_most_one (old new now1 now2 : Nat) (h1 : now1 ≤ now2) (h2 : now2 < now1 + nsPerSec)
+    (ho : old ≤ now1) (hn : new ≤ now1) :
+    (now1 - old) / nsPerSec - (now2 - new) / nsPerSec ≤ (now1 - old) / nsPerSec - (now1 - new) / nsPerSec ∧
+    (now1 - old) / nsPerSec - (now1 - new) / nsPerSec ≤ (now1 - old) / nsPerSec - (now2 - new) / nsPerSec + 1 := by
+  unfold nsPerSec at *
+  omega
+
 end SafeNet.Props.C13
 
 #print axioms SafeNet.Props.C13.bytes_injective
 #print axioms SafeNet.Props.C13.bytes_differ
+#print axioms SafeNet.Props.C13.verify_iff_any_key
 #print axioms SafeNet.Props.C13.verify_iff
 #print axioms SafeNet.Props.C13.altered_field_fails
 #print axioms SafeNet.Props.C13.altered_key_fails
@@ -716,3 +1030,23 @@ end SafeNet.Props.C13
 #print axioms SafeNet.Props.C13.replayed_quote_not_attributed
 #print axioms SafeNet.Props.C13.quote_hash_is_keccak
 #print axioms SafeNet.Props.C13.quote_hash_binds
+#print axioms SafeNet.Props.C13.weak_key_verifies_every_field_witness
+#print axioms SafeNet.Props.C13.altered_field_fails_needs_strong_key
+#print axioms SafeNet.Props.C13.noncanonical_key_same_verdict
+#print axioms SafeNet.Props.C13.noncanonical_key_other_hash_witness
+#print axioms SafeNet.Props.C13.one_signed_quote_many_hash_inputs
+#print axioms SafeNet.Props.C13.lesser_than_older_unflagged_witness
+#print axioms SafeNet.Props.C13.later_lesser_than_any_earlier_not_flagged
+#print axioms SafeNet.Props.C13.later_lesser_flagged_partial
+#print axioms SafeNet.Props.C13.undispatched_observes_nothing
+#print axioms SafeNet.Props.C13.later_lesser_flagged_once_dispatched
+#print axioms SafeNet.Props.C13.flagging_unreachable_witness
+#print axioms SafeNet.Props.C13.later_lesser_flagged_iff_dispatched
+#print axioms SafeNet.Props.C13.later_lesser_quote_not_flagged
+#print axioms SafeNet.Props.C13.checker_chain_intact
+#print axioms SafeNet.Props.C13.get_store_quote_reply
+#print axioms SafeNet.Props.C13.quote_for_nameless_address_is_for_zero
+#print axioms SafeNet.Props.C13.subsecond_reorder_flips_verdict_witness
+#print axioms SafeNet.Props.C13.expiry_truncates_to_whole_seconds_witness
+#print axioms SafeNet.Props.C13.historical_flags2
+#print axioms SafeNet.Props.C13.two_clock_reads_off_by_at_most_one
